@@ -3,6 +3,7 @@ import GbVerif.Model.X86Wf
 import GbVerif.Model.JitIp
 import GbVerif.Model.JitSp
 import GbVerif.Model.JitStatus
+import GbVerif.Model.JitWrites
 import GbVerif.Proofs.Enum
 /-!
 C01 — translated blocks have the same architectural effect as the interpreter.
@@ -121,5 +122,32 @@ theorem status_class_cb : ∀ b1, b1 < 2^8 → (JitStatus.jitStatus (Gen.emitCb 
 /-- non-vacuity: HALT returns class 2, RETI the EI class (the interpreter's 5 and the recompiler's 4 are one class), RLC B normal -/
 example : JitStatus.jitStatus (Gen.emitOp 0x76) = some [2] ∧ JitStatus.jitStatus (Gen.emitOp 0xd9) = some [4] ∧
     JitStatus.interpStatus (Gen.decode 0xd9 0 0).1 1 = some [4] ∧ JitStatus.jitStatus (Gen.emitCb 0x00) = some [0] := by decide +kernel
+
+
+/-! ### how many bytes a translated instruction writes to the bus -/
+
+def writesOkOp (b0 : Nat) : Bool :=
+  let t := Gen.emitOp b0
+  if t.isEmpty then true else
+  let (op, len, _) := Gen.decode b0 0 0
+  (JitWrites.jitWrites t).isSome && JitWrites.jitWrites t == JitWrites.interpWrites op len
+
+def writesOkCb (b1 : Nat) : Bool :=
+  let (op, len, _) := Gen.decode 0xcb b1 0
+  (JitWrites.jitWrites (Gen.emitCb b1)).isSome && JitWrites.jitWrites (Gen.emitCb b1) == JitWrites.interpWrites op len
+
+/-- **write_count**: over every path through the code of every instruction, translated code calls the bus helpers for
+exactly as many byte writes (one per `memory_write_byte`, two per `memory_write_word` / `memory_push_word`) as the
+interpreter model performs for that instruction and branch outcome — 0, 1 or 2; an instruction that must not write
+(e.g. BIT n,(HL), CP (HL), a not-taken CALL) does not -/
+theorem write_count_unprefixed : ∀ b0, b0 < 2^8 → writesOkOp b0 = true :=
+  forall_lt_of_allRange writesOkOp 8 (by decide +kernel)
+
+theorem write_count_cb : ∀ b1, b1 < 2^8 → writesOkCb b1 = true :=
+  forall_lt_of_allRange writesOkCb 8 (by decide +kernel)
+
+/-- non-vacuity: CALL NZ writes 0 or 2 bytes, BIT 0,(HL) none, RES 0,(HL) one, LD (nn),SP two -/
+example : JitWrites.jitWrites (Gen.emitOp 0xc4) = some [0, 2] ∧ JitWrites.jitWrites (Gen.emitCb 0x46) = some [0] ∧
+    JitWrites.jitWrites (Gen.emitCb 0x86) = some [1] ∧ JitWrites.jitWrites (Gen.emitOp 0x08) = some [2] := by decide +kernel
 
 end GbVerif.C01
